@@ -11,7 +11,8 @@ denotes, with ordinary two's-complement fixed-width arithmetic:
     with the same signedness, unambiguously: `decl` = the sf flags the user saw on the two operand objects
     *and on every node below them* when applying the operator — all must agree;
     signed `/` and `%` accept floor and truncate;
-  * division by zero, undeclared signedness, `top` leaves, ill-sized trees: not judged (None).
+  * division by zero, undeclared signedness, `top` and `mem` leaves, ill-sized trees: not judged (None);
+  * `setpart lo hi` writes the value on top into bits [lo,hi) of the composition below it.
 
 Raw-node instructions (`rawop name`, `rawuop`, `rawslc pos size`, `rawcomp n`) denote the same trees as the
 operator-API instructions and are read as such (`canon`).
@@ -73,6 +74,16 @@ def width(script):
                 st.append(ins[2])
             elif o == "top":
                 st.append(ins[1])
+            elif o == "mem":
+                if ins[2] <= 0 or ins[2] % 8:
+                    raise IllSized
+                st.append(ins[2])
+            elif o == "setpart":
+                v = st.pop(); c = st.pop()
+                lo, hi = ins[1], ins[2]
+                if not (0 <= lo < hi <= c) or v != hi - lo:
+                    raise IllSized
+                st.append(c)
             elif o in ("signed", "unsigned", "neg", "not", "simp", "simpb"):
                 pass
             elif o in BINOPS:
@@ -128,8 +139,13 @@ def evaluate(script, decl, rho):
             if ins[1] not in rho:
                 return None
             st.append((ins[2], frozenset([rho[ins[1]] & M(ins[2])])))
-        elif o == "top":
+        elif o in ("top", "mem"):
+            # no single value (memory is left symbolic: scripts with memory leaves are judged on widths only)
             return None
+        elif o == "setpart":
+            wv, V = st.pop(); w, C = st.pop(); lo, hi = ins[1], ins[2]
+            keep = M(w) ^ (M(hi - lo) << lo)
+            st.append((w, frozenset((c & keep) | (v << lo) for c in C for v in V)))
         elif o in ("signed", "unsigned", "simp", "simpb"):
             pass
         elif o == "neg":
